@@ -20,7 +20,7 @@ import (
 var sizedLensQuick = []int{0, 1, 2, 3, 11, 12, 13, 15, 16, 17, 31, 32, 33, 63, 64, 65, 127, 128, 129, 192, 256, 1000}
 var sizedLensThorough = []int{255, 257, 511, 512, 513, 1024, 4095, 4096, 4097, 10000}
 
-const sizedPatterns = 21
+const sizedPatterns = 23
 const sizedForms = 16
 
 var sizedFnNames []string
@@ -110,6 +110,20 @@ func sizedArray(n, pattern int) []interface{} {
 				k = float64(n)
 			}
 			a[i] = map[string]interface{}{"k": k, "v": float64(i)}
+		case 21: // two huge terms that cancel first, then small integers: every partial sum of the left-to-right sum is exact
+			a[i] = float64(i%5 + 1)
+			if i == 0 {
+				a[i] = 1e16
+			} else if i == 1 {
+				a[i] = -1e16
+			}
+		case 22: // small exact binary fractions (any order of addition gives the same sum) with one huge pair at the end
+			a[i] = float64(i%8) / 8
+			if n >= 2 && i == n-2 {
+				a[i] = float64(4503599627370496) // 2^52: the partial sums before it are far below the spacing of doubles there
+			} else if n >= 2 && i == n-1 {
+				a[i] = float64(-4503599627370496)
+			}
 		default: // descending keys with ties at the end
 			k := float64(n - i)
 			if i >= n-3 {
